@@ -111,7 +111,7 @@ Definition ensure_parents (layer : nat) (p : list seg) (m : fsmap) : fsmap :=
 Definition add_member (layer : nat) (m : fsmap) (x : member) : fsmap :=
   match x with
   | MWhiteout p => ensure_parents layer p m
-  | MOpaque d => ensure_parents layer (d ++ [[]]) m                    (* d itself exists *)
+  | MOpaque d => ensure_parents layer (d ++ [([] : seg)]) m                    (* d itself exists *)
   | MEntry p e =>
       let m1 := ensure_parents layer p m in
       match se_kind e with
@@ -138,7 +138,7 @@ Definition view_spec (cfg : config) (im : image) (i : nat) : fsmap :=
 
 (* ------------------------------------------------------------------ what a view shows *)
 Definition s_children (m : fsmap) (p : list seg) : list (seg * sentry) :=
-  flat_map (fun kv => let (k, v) := kv in
+  flat_map (fun kv : list seg * sentry => let (k, v) := kv in
               match rev k with
               | b :: rd => if segs_eqb (rev rd) p then [(b, v)] else []
               | [] => []
@@ -194,7 +194,7 @@ Fixpoint chain_of (m : fsmap) (hops : nat) (p : list seg) : list (list seg) :=
   end.
 
 Definition kept_paths (req : option (list str)) (hops : nat) (m : fsmap) : list (list seg) :=
-  flat_map (fun kv => let (k, v) := kv in
+  flat_map (fun kv : list seg * sentry => let (k, v) := kv in
               if spec_required req k then k :: match se_kind v with SKSym => chain_of m hops k | _ => [] end
               else []) m.
 
@@ -304,11 +304,26 @@ Fixpoint cross_ok (lower : list dmember) (layers : list (list dmember)) : bool :
   | ms :: r => all_true (destructive_ok lower (concat r)) ms && cross_ok (lower ++ ms) r
   end.
 
+(* final view only: removeUnnecessaryFileNodes removes every whiteout node with pathtree.Remove,
+   which also deletes the parent directory (depth >= 2) when that was its last child.  Safe when the
+   parent of every nested whiteout target still has a child in the final view. *)
+Definition final_prune_safe (cfg : config) (im : image) : bool :=
+  let fin := view_spec cfg im (length (init_slots im) - 1) in
+  all_true (all_true (fun m => match dm_class m with
+                               | DCWhiteout =>
+                                   match removelast (dm_path m) with
+                                   | [] => true
+                                   | par => match s_children fin par with [] => false | _ => true end
+                                   end
+                               | _ => true
+                               end))
+           (map (dmembers (cfg_max_bytes cfg)) (im_layers im)).
+
 Definition D_weak (cfg : config) (im : image) : bool :=
   config_valid cfg &&
   all_true (all_true (entry_wellformed (cfg_max_bytes cfg))) (im_layers im) &&
   let dl := map (dmembers (cfg_max_bytes cfg)) (im_layers im) in
-  all_true layer_ok dl && cross_ok [] dl.
+  all_true layer_ok dl && cross_ok [] dl && final_prune_safe cfg im.
 
 Definition D (cfg : config) (im : image) : bool :=
   D_weak cfg im && all_true (parents_explicit []) (map (dmembers (cfg_max_bytes cfg)) (im_layers im)).
